@@ -226,7 +226,8 @@ func (XORObfuscator) TryReveal(cipherText []byte, privateKey [32]byte) ([]byte, 
 func (XORObfuscator) Obfuscate(plainText []byte, stationPubkey []byte) ([]byte, error) {
 	lp := len(plainText)
 	if lp == 0 {
-		return []byte{}, nil
+		// the empty encoding is not accepted by TryReveal
+		return nil, errors.New("cannot obfuscate an empty tag")
 	}
 	out := make([]byte, lp*2)
 
